@@ -167,7 +167,7 @@ PROPS = {
         'level_text': 'Proof (refusal_identity, retry_succeeds): whenever the generated method returns Err, the machine handed back equals the receiver (state, context, every slot) and only around-Before stages and conditions ran; a later call under favourable conditions succeeds. Dynamic-mode half proved in SMV/Props/C05 once the wrapper theorems land.',
         'level_note': 'Around callbacks are modelled as taking &self (a write they perform is outside the model). Tie: T2 regions AB GC HD.',
         'title': 'A refused transition has no effect and returns the machine intact',
-        'modules': ['SMV.Props.C05', 'SMV.Props.C05Dyn', 'SMV.Props.RefineSkip'],
+        'modules': ['SMV.Props.C05', 'SMV.Props.C05Dyn', 'SMV.Props.RefineSkip', 'SMV.Props.RefineSkipVeto'],
         'regions': ['AB', 'GC', 'HD'],
         't3': ['assign', 'walk'],
         'design_ref': 'DESIGN.md §7 C05',
@@ -176,7 +176,7 @@ PROPS = {
         'level_text': "Proof (before_abort, after_success_on_ok, no_after_success_on_err, ok_implies_after_all_proceed, after_abort_panics): a Before-stage abort at any position returns the receiver unchanged with the abort's kind, the carried name (callback name for invalid-transition) and the event; AfterSuccess stages run exactly once each, last, only on success; an AfterSuccess abort always panics with the generated message and never yields Ok/Err. RefineVeto.refines_spec_veto: along every history the wrapper is the abstract machine in which an event fires iff there is an edge, no around callback of the edge vetoes (with any error kind), guards true, unless false.",
         'level_note': 'Tie: T2 regions AB AA (panic literal included).',
         'title': 'Around callbacks can veto before the transition and are never swallowed after',
-        'modules': ['SMV.Props.C06', 'SMV.Props.RefineVeto'],
+        'modules': ['SMV.Props.C06', 'SMV.Props.RefineVeto', 'SMV.Props.RefineSkipVeto'],
         't5': True,
         'regions': ['AB', 'AA'],
         't3': ['assign'],
